@@ -1181,6 +1181,70 @@ func TestC15(t *testing.T) {
 				sum.Paths[p.Name()+"-bulkdel"]++
 				record(w, rec, &seq, sum, seen, trace.Ev{"cfg": shape, "bulk": true}, func(h *History) bool { return true })
 			}
+			// first contact: the operation under test is the first command its entry member ever sees for that DMap (a member
+			// keeps a registry of the DMaps it has handled, filled on demand).  A fresh DMap per case; the key lives on other
+			// members (the entry member is neither the owner nor a backup owner of its partition); the initial state and the
+			// final read go through the embedded client of the key's owner.
+			if sh.N > sh.R {
+				type fcase struct {
+					name  string
+					setup func(k string) []Step
+					steps func(k string) []Step
+				}
+				putOld := func(k string) []Step { return []Step{{Op: "put", Key: k, Val: "old-" + k}} }
+				fcs := []fcase{
+					{"del", putOld, func(k string) []Step { return []Step{{Op: "del", Key: k}} }},
+					{"mdel", putOld, func(k string) []Step { return []Step{{Op: "mdel", Keys: []string{k, k + "-nokey"}}} }},
+					{"get", putOld, func(k string) []Step { return []Step{{Op: "get", Key: k}} }},
+					{"putXX", putOld, func(k string) []Step { return []Step{{Op: "put", Key: k, Val: "new-" + k, Opts: PutOpts{XX: true}}} }},
+					{"putNX", putOld, func(k string) []Step { return []Step{{Op: "put", Key: k, Val: "new-" + k, Opts: PutOpts{NX: true}}} }},
+					{"expire", putOld, func(k string) []Step { return []Step{{Op: "expire", Key: k, D: ms(60000), Ms: true}} }},
+					{"getput", putOld, func(k string) []Step { return []Step{{Op: "getput", Key: k, Val: "new-" + k}} }},
+					{"incr", func(k string) []Step { return []Step{{Op: "incr", Key: k, Delta: 10}} },
+						func(k string) []Step { return []Step{{Op: "incr", Key: k, Delta: 5}} }},
+				}
+				for fi, fc := range fcs {
+					for e := 0; e < sh.N; e++ {
+						for _, p := range []Path{paths[e], paths[sh.N+e], paths[2*sh.N]} {
+							if p == paths[2*sh.N] && (e != 0 || fc.name != "mdel") {
+								continue // the cluster client sends single-key requests to the owner; its multi-key Delete goes to any member
+							}
+							dmName := fmt.Sprintf("fc%d-%d-%d-%s", si, fi, e, strings.ReplaceAll(p.Name(), "@", "-"))
+							key := ""
+							var owner *cluster.Member
+							for i := 0; i < 400 && key == ""; i++ {
+								k := fmt.Sprintf("f%d", i)
+								o, _ := c.OwnerOf(c.Live()[0], dmName, k)
+								ok := o != nil && o.Index != e
+								for _, b := range c.BackupsOf(c.Live()[0], dmName, k) {
+									if b.Index == e {
+										ok = false
+									}
+								}
+								if ok {
+									key, owner = k, o
+								}
+							}
+							if key == "" {
+								continue
+							}
+							via := paths[owner.Index]
+							var steps []Step
+							for _, st := range fc.setup(key) {
+								st.Via = via
+								steps = append(steps, st)
+							}
+							steps = append(steps, fc.steps(key)...)
+							steps = append(steps, Step{Op: "get", Key: key, Num: fc.name == "incr", Via: via})
+							rec := NewRecorder()
+							rec.Run(dmName, []Script{{Client: "fc", Path: p, Steps: steps}}, nil)
+							sum.Evaluations += len(steps)
+							sum.Paths[p.Name()+"-first-contact"]++
+							record(w, rec, &seq, sum, seen, trace.Ev{"cfg": shape, "first_contact": fc.name}, func(h *History) bool { return true })
+						}
+					}
+				}
+			}
 		}()
 	}
 	if err := w.Close(); err != nil {
